@@ -3,7 +3,7 @@ import mb
 
 KINDS = ["Other", "ConnectionReset", "ConnectionAborted", "ConnectionRefused", "PermissionDenied", "AddrInUse",
          "AlreadyExists", "NotFound", "Unsupported", "OutOfMemory", "HostUnreachable", "AddrNotAvailable",
-         "UnexpectedEof", "InvalidData", "InvalidInput", "BrokenPipe", "NotConnected", "WriteZero", "TimedOut"]
+         "UnexpectedEof", "InvalidData", "InvalidInput", "BrokenPipe", "NotConnected", "WriteZero", "TimedOut", "Interrupted", "WouldBlock"]
 CLOSED_FAMILY = {"BrokenPipe", "ConnectionAborted", "ConnectionReset", "UnexpectedEof", "NotConnected"}
 
 
